@@ -324,7 +324,7 @@ def set_ctx(c):
 
 
 def key_to_str(v):
-    return 'K%06d' % (int(v) + 500000)
+    return 'Eq:k%06d' % (int(v) + 500000)      # mixed case and a colon, like real symbols; fixed width keeps the order
 
 
 def explore(c, fn, max_paths=4000):
